@@ -111,6 +111,13 @@ impl Prop for C06 {
                 s.into_iter().collect()
             },
         };
+        // one bulk operation in sixty names a thousand ids and more (sizes on and around 1024 and its multiples): whatever the
+        // fan-out does in slices, pages or bounded messages (after the seeded change `C06r`; n <= 6 keeps the case cheap)
+        let keys: Vec<u64> = if matches!(kind, Kind::PutMany | Kind::DelMany) && n <= 6 && src.chance(1, 60) {
+            (1..=*src.pick(&[1_023u64, 1_024, 1_025, 1_500, 2_049])).collect()
+        } else {
+            keys
+        };
         let mut behaviour = BTreeMap::new();
         for i in 0..n {
             if i != issuer && src.chance(1, 3) {
@@ -144,7 +151,7 @@ impl Prop for C06 {
             "issuer": case.nodes[case.issuer].0,
             "level": level_name(case.level),
             "op": format!("{:?}", case.kind),
-            "keys": case.keys,
+            "keys": if case.keys.len() > 16 { json!(format!("ids 1..={}", case.keys.len())) } else { json!(case.keys) },
             "replica_behaviour": case.behaviour.iter().map(|(i, r)| (case.nodes[*i].0.to_string(), format!("{:?}", r))).collect::<BTreeMap<_, _>>(),
             "earlier_selections": case.earlier.iter().map(|l| level_name(*l)).collect::<Vec<_>>(),
             "preload": case.preload,
@@ -447,6 +454,9 @@ async fn run(case: &Case, net: e3::Net) -> Outcome {
     }
     if case.nodes.len() > 10 {
         labels.push("more_than_10_nodes");
+    }
+    if case.keys.len() > 1_000 {
+        labels.push("bulk_of_more_than_1000_ids");
     }
     if elapsed >= Duration::from_millis(1_700) {
         labels.push("waited_for_slow_replica");
